@@ -25,11 +25,14 @@ def run_case(case):
     obs = Obs()
     specs, driver = case["frames"], case["driver"]
     cf, fire, skip = case.get("cf", False), case.get("fire", False), case.get("skip", False)
-    events, ws, fs, frames, ends, wire = rx.run_stream(specs, case.get("cuts", []), driver, cf, fire, skip)
+    nb = rx.Neighbour() if case.get("neighbour") else None  # a second connection of the process, served between this one's frames
+    events, ws, fs, frames, ends, wire = rx.run_stream(specs, case.get("cuts", []), driver, cf, fire, skip, neighbour=nb)
     want, wwr = rx.expected_events(frames, ends, len(wire), driver, cf, fire, skip)
     mode = "per-fragment" if fire else "reassembly"
     if rx.compare(obs, events, want, f"{mode}|{driver}"):
         rx.compare_writes(obs, fs, wwr, f"{mode}|{driver}")
+    if nb is not None:
+        nb.check(obs, mode)
     # classification
     nmsg = sum(1 for f in frames if f.opcode in (rm.TEXT, rm.BINARY))
     maxfrag, cur, ctl_inside, empty_frag, inmsg = 0, 0, False, False, False
@@ -46,7 +49,7 @@ def run_case(case):
         maxfrag = max(maxfrag, cur)
     nt = maxfrag >= 3 or empty_frag or ctl_inside or nmsg >= 2
     obs.cls = (mode, driver, f"msgs:{min(nmsg, 5)}", f"maxfrag:{min(maxfrag, 8)}", f"empty_frag:{int(empty_frag)}",
-               f"ctl_inside:{int(ctl_inside)}", f"skip:{int(skip)}", f"cf:{int(cf)}")
+               f"ctl_inside:{int(ctl_inside)}", f"skip:{int(skip)}", f"cf:{int(cf)}", f"neighbour:{int(nb is not None)}")
     obs.nt = (driver, cf, fire, skip, rx.shape(frames)) if nt else None
     return obs
 
@@ -59,7 +62,10 @@ def cases(draw):
     cf = draw(st.booleans()) if driver not in rx.RECVS else False
     wire, frames, ends = rx.wire_of(specs)
     cuts = draw(rx.cutset(len(wire), ends)) if draw(st.integers(0, 3)) == 0 else []
-    return {"frames": specs, "driver": driver, "cf": cf, "fire": fire, "skip": draw(st.booleans()), "cuts": cuts}
+    c = {"frames": specs, "driver": driver, "cf": cf, "fire": fire, "skip": draw(st.booleans()), "cuts": cuts}
+    if draw(st.integers(0, 3)) == 0:
+        c["neighbour"] = True
+    return c
 
 
 def long_cases(shard, of):
